@@ -484,7 +484,25 @@ func stepFace(env *Env, st *Step) *canvas.FontFace {
 	return face
 }
 
-type bufWriter struct{ bytes.Buffer }
+// faultySink is the renderers' io.Writer: an in-memory buffer that starts returning an error at
+// the failAt-th Write (the injected "disk full").
+type faultySink struct {
+	buf    bytes.Buffer
+	n      int
+	failAt int
+	fired  bool
+}
+
+var errSink = fmt.Errorf("injected write error: no space left on device")
+
+func (s *faultySink) Write(p []byte) (int, error) {
+	s.n++
+	if s.failAt > 0 && s.n >= s.failAt {
+		s.fired = true
+		return 0, errSink
+	}
+	return s.buf.Write(p)
+}
 
 func renderStep(env *Env, st *Step) Result {
 	d := st.Draw
@@ -535,15 +553,16 @@ func renderStep(env *Env, st *Step) Result {
 		}
 		ctx.Pop()
 	}
-	var buf bytes.Buffer
+	sink := &faultySink{failAt: st.FailAt}
+	buf := sink
 	var err error
 	switch st.Format {
 	case "pdf":
-		r := pdf.New(&buf, d.W, d.H, &pdf.Options{Compress: st.Opt&1 != 0, SubsetFonts: st.Opt&2 != 0, ImageEncoding: canvas.Lossless})
+		r := pdf.New(buf, d.W, d.H, &pdf.Options{Compress: st.Opt&1 != 0, SubsetFonts: st.Opt&2 != 0, ImageEncoding: canvas.Lossless})
 		c.RenderTo(r)
 		err = r.Close()
 	case "svg":
-		r := svg.New(&buf, d.W, d.H, &svg.Options{EmbedFonts: st.Opt&1 != 0, SubsetFonts: st.Opt&2 != 0, SizeUnits: "mm", ImageEncoding: canvas.Lossless})
+		r := svg.New(buf, d.W, d.H, &svg.Options{EmbedFonts: st.Opt&1 != 0, SubsetFonts: st.Opt&2 != 0, SizeUnits: "mm", ImageEncoding: canvas.Lossless})
 		c.RenderTo(r)
 		err = r.Close()
 	case "ps", "eps":
@@ -551,22 +570,24 @@ func renderStep(env *Env, st *Step) Result {
 		if st.Format == "eps" {
 			f = ps.EncapsulatedPostScript
 		}
-		r := ps.New(&buf, d.W, d.H, &ps.Options{Format: f, ImageEncoding: canvas.Lossless})
+		r := ps.New(buf, d.W, d.H, &ps.Options{Format: f, ImageEncoding: canvas.Lossless})
 		c.RenderTo(r)
 		err = r.Close()
 	case "png":
 		res := canvas.DPMM([]float64{2, 4, 1}[st.Opt%3])
 		img := rasterizer.Draw(c, res, canvas.DefaultColorSpace)
-		err = png.Encode(&buf, img)
+		err = png.Encode(buf, img)
 	default:
 		panic("unknown format " + st.Format)
 	}
-	if err != nil {
-		return errResult(err)
-	}
 	h := newHasher()
-	h.bytes(buf.Bytes())
-	return Result{Kind: "bytes", Hash: h.h, Brief: fmt.Sprintf("%s %d bytes", st.Format, buf.Len())}
+	h.bytes(sink.buf.Bytes())
+	if err != nil {
+		// same error and same bytes accepted before it, nothing more is demanded after a fault
+		h.str(err.Error())
+		return Result{Kind: "err", Hash: h.h, Brief: fmt.Sprintf("%s: %v after %d bytes", st.Format, err, sink.buf.Len()), Fault: sink.fired}
+	}
+	return Result{Kind: "bytes", Hash: h.h, Brief: fmt.Sprintf("%s %d bytes", st.Format, sink.buf.Len()), Fault: sink.fired}
 }
 
 var _ = text.Glyph{}
